@@ -139,7 +139,7 @@ func runC09P(c C09PCase) (verdict vrt.Verdict) {
 					fail("%s: EnableVerification of a config type without Verify returned %v", step, enErr)
 					return
 				}
-				if cfg != cur || serialOf(tok) != curSerial {
+				if _, vtok := d.ViewVersion(); cfg != cur || serialOf(tok) != curSerial || tok != vtok {
 					fail("%s: EnableVerification returned (%p, serial %d), want the installed config (%p, serial %d)", step, cfg, serialOf(tok), cur, curSerial)
 					return
 				}
